@@ -392,6 +392,8 @@ class HookEval:
             self.tparam = "_"
         self.locals: dict[str, tuple] = {}
         self._inline_depth = 0
+        self.accums = {}
+        self.nestedfns = {}
         # names bound to folded VALUES (strings, type objects, tables) by helper inlining / loop unrolling
         self.valenv: list[dict] = []
         self.localvals: dict = {}      # locals of the hook bound to folded values
@@ -449,6 +451,8 @@ class HookEval:
 
     def helper_fn(self, name: str):
         """A helper function visible from the hook: FunctionDef or None."""
+        if name in self.nestedfns:
+            return self.nestedfns[name]
         v = self.free_value(name)
         if v is not self._NOVALUE and hasattr(v, "node") and isinstance(v.node, (ast.FunctionDef, ast.Lambda)):
             return v.node
@@ -474,6 +478,10 @@ class HookEval:
 
     def _type_in_world(self, node, w, extra):
         """structure target that may depend on the input through a conditional expression (directly or via a local)"""
+        if isinstance(node, ast.Name):
+            fv = self._frame_value(node.id)
+            if isinstance(fv, _LocalExpr):
+                return self._type_in_world(fv.expr, w, {**fv.extra, **(extra or {})})
         if isinstance(node, ast.Name) and node.id in self.localexprs:
             expr, ex = self.localexprs[node.id]
             return self._type_in_world(expr, w, {**ex, **(extra or {})})
@@ -766,6 +774,18 @@ class HookEval:
         if isinstance(node, ast.Call) and dotted(node.func) in ("any", "all") and len(node.args) == 1 \
                 and isinstance(node.args[0], (ast.GeneratorExp, ast.ListComp)) and len(node.args[0].generators) == 1:
             return self._quantified(node, w, extra)
+        if isinstance(node, ast.Call) and dotted(node.func) in ("len", "bool") and len(node.args) == 1 and not node.keywords:
+            if dotted(node.func) == "bool":
+                return self.truth(node.args[0], w, extra)
+            # `if len(x):`  ==  `if len(x) > 0:`
+            key = ("synth-len", id(node))
+            synth = self._synth.get(key)
+            if synth is None:
+                synth = ast.Compare(left=node, ops=[ast.Gt()], comparators=[ast.Constant(value=0)])
+                ast.copy_location(synth, node)
+                ast.fix_missing_locations(synth)
+                self._synth[key] = synth
+            return self.truth(synth, w, extra)
         if isinstance(node, ast.Call) and isinstance(node.func, ast.Name) and node.func.id not in ("isinstance", "len", "any", "all") \
                 and not node.keywords and node.args:
             hf = self.helper_fn(node.func.id)
@@ -788,6 +808,9 @@ class HookEval:
             if v[0] == "error":
                 return v
             return self._isinstance(w, p, v, set(names))
+        if isinstance(node, ast.Name) and self.path_of(node, extra) is None and isinstance(self._frame_value(node.id), _LocalExpr):
+            fv = self._frame_value(node.id)
+            return self.truth(fv.expr, w, {**fv.extra, **(extra or {})})
         if isinstance(node, ast.Name) and node.id in self.localexprs and self.path_of(node, extra) is None:
             expr, ex = self.localexprs[node.id]
             return self.truth(expr, w, {**ex, **(extra or {})})
@@ -1051,11 +1074,29 @@ class HookEval:
             if isinstance(a, ast.Name) and self._is_tparam(a):
                 frame[prm.arg] = _TYPEPARAM      # the type the hook was called for, handed on to the helper
                 continue
+            if isinstance(a, ast.Name):
+                fv = self._frame_value(a.id)
+                if isinstance(fv, _LocalExpr):
+                    frame[prm.arg] = fv
+                    continue
+                if a.id in self.localexprs:
+                    frame[prm.arg] = _LocalExpr(*self.localexprs[a.id])
+                    continue
             v = self.fold_value(a)
             if v is self._NOVALUE:
+                if isinstance(a, (ast.IfExp, ast.BoolOp, ast.Compare, ast.UnaryOp)):
+                    # an argument that depends on the input (`A if "k" in value else B`): resolved where it is used
+                    frame[prm.arg] = _LocalExpr(a, dict(extra or {}))
+                    continue
                 return None
             frame[prm.arg] = v
         return extra2, frame
+
+    def _frame_value(self, name):
+        for frame in reversed(self.valenv):
+            if name in frame:
+                return frame[name]
+        return None
 
     def _is_tparam(self, node) -> bool:
         if not isinstance(node, ast.Name):
@@ -1132,7 +1173,11 @@ class HookEval:
         self.localvals = {}
         self.localexprs = {}
         self.conv_aliases = set()
+        self.accums = {}
+        self.nestedfns = {}
         r = self._exec_block(fn.body, w)
+        if r is _BREAK:
+            raise AnalysisError(f"{self.rel}: break outside a loop in {self.name}")
         if r is None:
             return Leaf("fallthrough", node=fn)
         return r
@@ -1147,10 +1192,27 @@ class HookEval:
                 st = ast.copy_location(ast.Assign(targets=[st.target], value=st.value), st)     # `x: T = v`
             if isinstance(st, ast.Pass):
                 continue
+            if isinstance(st, ast.Break):
+                return _BREAK
+            if isinstance(st, ast.FunctionDef) and not st.decorator_list:
+                self.nestedfns[st.name] = st          # a helper defined inside the hook: inlined where it is called
+                continue
             if isinstance(st, ast.Return):
                 if st.value is None:
                     return Leaf("none", node=st)
+                if isinstance(st.value, ast.Name) and (self._inline_depth, st.value.id) in self.accums:
+                    acc = self.accums[(self._inline_depth, st.value.id)]
+                    return acc if acc is not None else Leaf("empty", node=st, tuple=False)
                 return self._leaf(st.value, w, extra)
+            if isinstance(st, ast.Assign) and len(st.targets) == 1 and isinstance(st.targets[0], ast.Name) and (
+                    (isinstance(st.value, ast.List) and not st.value.elts)
+                    or (isinstance(st.value, ast.Call) and dotted(st.value.func) == "list" and not st.value.args)):
+                # `out = []` : possibly the accumulator of a `for x in value: out.append(...)` loop
+                self.accums[(self._inline_depth, st.targets[0].id)] = None
+                self.localvals[st.targets[0].id] = []
+                continue
+            if isinstance(st, ast.Assign):
+                st = self._norm_assign(st)
             if isinstance(st, ast.Raise):
                 return Leaf("raise", node=st, what=ast.unparse(st)[:60])
             if isinstance(st, ast.Assert):
@@ -1245,6 +1307,41 @@ class HookEval:
                 if isinstance(r, tuple):
                     return Leaf("error", node=st, what=r[1])
                 return self._leaf(ret, w, extra) if r else None
+            # `for x in value: if TEST: V = E; break`  ==  `if any(TEST for x in value): V = E`
+            if len(body) == 1 and isinstance(body[0], ast.If) and not body[0].orelse and isinstance(st.target, ast.Name) \
+                    and len(body[0].body) >= 2 and isinstance(body[0].body[-1], ast.Break) \
+                    and all(isinstance(s_, (ast.Assign, ast.AnnAssign)) for s_ in body[0].body[:-1]) \
+                    and not any(isinstance(n_, ast.Name) and n_.id == st.target.id
+                                for s_ in body[0].body[:-1] for n_ in ast.walk(s_)):
+                test = body[0].test if not guards else ast.BoolOp(op=ast.And(), values=guards + [body[0].test])
+                key = ("synth-any", id(st))
+                synth = self._synth.get(key)
+                if synth is None:
+                    gen = ast.GeneratorExp(elt=test, generators=[ast.comprehension(target=st.target, iter=st.iter,
+                                                                                           ifs=[], is_async=0)])
+                    synth = ast.Call(func=ast.Name(id="any", ctx=ast.Load()), args=[gen], keywords=[])
+                    ast.copy_location(synth, st)
+                    ast.fix_missing_locations(synth)
+                    self._synth[key] = synth
+                r = self._decide(synth, w, extra)
+                if isinstance(r, tuple):
+                    return Leaf("error", node=st, what=r[1])
+                if r:
+                    res = self._exec_block(body[0].body[:-1], w, extra)
+                    if res is not None:
+                        return res
+                return None
+            # `for x in value: ...; out.append(E)`  ==  `out = [E' for x in value]`
+            acc = self._accumulate_form(st, extra)
+            if acc is not None:
+                name, elt = acc
+                key = (self._inline_depth, name)
+                if self.accums.get(key, 0) is not None:
+                    raise AnalysisError(f"{self.rel}:{st.lineno}: {name} in {self.name} is appended to by more than one loop "
+                                        "(or is not a fresh list)")
+                self.accums[key] = Leaf("each", node=st, path=p, var=st.target.id, elt=elt, ifs=[],
+                                        frames=[dict(f) for f in self.valenv], extra=dict(extra or {}))
+                return None
             raise AnalysisError(f"{self.rel}:{st.lineno}: loop over the input in {self.name} is not of the form "
                                 "`for x in value: if TEST: return ...`")
         table = self.fold_value(st.iter)
@@ -1267,9 +1364,106 @@ class HookEval:
                 res = self._exec_block(st.body, w, extra)
             finally:
                 self.valenv.pop()
+            if res is _BREAK:
+                return None
             if res is not None:
                 return res
         return None
+
+    def _norm_assign(self, st: ast.Assign):
+        """`x = (A, B)[TEST]`  ->  `x = B if TEST else A` (the same statement every time it is met)"""
+        v = st.value
+        if isinstance(v, ast.Subscript) and isinstance(v.value, (ast.Tuple, ast.List)) and len(v.value.elts) == 2 \
+                and isinstance(v.slice, (ast.Compare, ast.BoolOp, ast.UnaryOp)) \
+                or (isinstance(v, ast.Subscript) and isinstance(v.value, (ast.Tuple, ast.List)) and len(v.value.elts) == 2
+                    and isinstance(v.slice, ast.Call) and dotted(v.slice.func) in ("isinstance", "bool", "any", "all")):
+            key = ("synth-ifexp", id(st))
+            synth = self._synth.get(key)
+            if synth is None:
+                ife = ast.IfExp(test=v.slice, body=v.value.elts[1], orelse=v.value.elts[0])
+                synth = ast.Assign(targets=st.targets, value=ife)
+                ast.copy_location(ife, v)
+                ast.copy_location(synth, st)
+                ast.fix_missing_locations(synth)
+                self._synth[key] = synth
+            return synth
+        return st
+
+    def _accumulate_form(self, st: ast.For, extra):
+        """A loop over the input whose body only rebinds locals and appends exactly one value per element to one list:
+        -> (list name, element expression in terms of the loop variable) or None."""
+        if not isinstance(st.target, ast.Name):
+            return None
+        key = ("synth-acc", id(st))
+        if key in self._synth:
+            return self._synth[key]
+        import copy
+
+        class Sub(ast.NodeTransformer):
+            def __init__(s_, env):
+                s_.env = env
+
+            def visit_Name(s_, n):
+                if isinstance(n.ctx, ast.Load) and n.id in s_.env:
+                    return copy.deepcopy(s_.env[n.id])
+                return n
+
+        def subst(e, env):
+            return Sub(env).visit(copy.deepcopy(e))
+
+        def proc(block, env):
+            """-> (env', (list name, appended expression) | None) or None when the block is not of the form"""
+            app = None
+            for s_ in block:
+                if isinstance(s_, ast.Expr) and isinstance(s_.value, ast.Constant):
+                    continue
+                if isinstance(s_, ast.Pass):
+                    continue
+                if app is not None:
+                    return None                      # something after the append
+                if isinstance(s_, ast.AnnAssign) and s_.value is not None and isinstance(s_.target, ast.Name):
+                    env = {**env, s_.target.id: subst(s_.value, env)}
+                    continue
+                if isinstance(s_, ast.Assign) and len(s_.targets) == 1 and isinstance(s_.targets[0], ast.Name):
+                    env = {**env, s_.targets[0].id: subst(s_.value, env)}
+                    continue
+                if isinstance(s_, ast.Expr) and isinstance(s_.value, ast.Call) and isinstance(s_.value.func, ast.Attribute) \
+                        and s_.value.func.attr == "append" and isinstance(s_.value.func.value, ast.Name) \
+                        and len(s_.value.args) == 1 and not s_.value.keywords:
+                    app = (s_.value.func.value.id, subst(s_.value.args[0], env))
+                    continue
+                if isinstance(s_, ast.If):
+                    test = subst(s_.test, env)
+                    b = proc(s_.body, env)
+                    o = proc(s_.orelse, env)
+                    if b is None or o is None:
+                        return None
+                    (eb, ab), (eo, ao) = b, o
+                    if (ab is None) != (ao is None):
+                        return None                  # appended on one branch only: a filter, not modelled
+                    merged = dict(env)
+                    for nm in set(eb) | set(eo):
+                        vb = eb.get(nm, ast.Name(id=nm, ctx=ast.Load()))
+                        vo = eo.get(nm, ast.Name(id=nm, ctx=ast.Load()))
+                        if vb is not env.get(nm) or vo is not env.get(nm):
+                            merged[nm] = ast.IfExp(test=copy.deepcopy(test), body=vb, orelse=vo)
+                    env = merged
+                    if ab is not None:
+                        if ab[0] != ao[0]:
+                            return None
+                        app = (ab[0], ast.IfExp(test=test, body=ab[1], orelse=ao[1]))
+                    continue
+                return None
+            return env, app
+        r = proc(st.body, {})
+        out = None
+        if r is not None and r[1] is not None and not st.orelse:
+            name, elt = r[1]
+            ast.copy_location(elt, st)
+            ast.fix_missing_locations(elt)
+            out = (name, elt)
+        self._synth[key] = out
+        return out
 
     def _leaf(self, node, w, extra=None):
         extra = extra or {}
@@ -1379,6 +1573,15 @@ class HookEval:
                                 frames=[dict(f) for f in self.valenv], extra=dict(extra or {}))
         raise AnalysisError(f"{self.rel}:{getattr(node, 'lineno', '?')}: unsupported return expression in "
                             f"{self.name}: {ast.unparse(node)[:80]}")
+
+
+_BREAK = object()
+
+
+class _LocalExpr:
+    """a helper parameter bound to an input-dependent expression of the caller"""
+    def __init__(self, expr, extra):
+        self.expr, self.extra = expr, extra
 
 
 def _cmp_int(op, a, b):
